@@ -19,13 +19,66 @@
 package resolver
 
 import (
+	"bytes"
+	"encoding/json"
 	"errors"
+	"fmt"
 	"github.com/lestrrat-go/jwx/v2/cert"
 	"github.com/nuts-foundation/go-did/did"
 	"github.com/nuts-foundation/nuts-node/crypto/hash"
+	"strings"
 	"sync"
 	"time"
 )
+
+// ParseDocument parses a DID document that comes from an untrusted source (e.g. the network or a remote web server).
+// Other than did.ParseDocument, it refuses documents that would leave nil pointers in the parsed document:
+//   - a JSON null as verification method (kept as nil entry by go-did, which dereferences it itself when the document
+//     also contains a verification relationship that is a reference),
+//   - an empty reference ("" or "#") as verification relationship (not resolved by go-did, which leaves the
+//     relationship without verification method).
+func ParseDocument(data []byte) (*did.Document, error) {
+	// Null verification methods must be detected before go-did parses the document.
+	// encoding/json matches struct fields case-insensitively, so check every member that go-did could pick up.
+	var members map[string]json.RawMessage
+	if err := json.Unmarshal(data, &members); err != nil {
+		return nil, err
+	}
+	for name, value := range members {
+		if !strings.EqualFold(name, "verificationMethod") {
+			continue
+		}
+		var entries []json.RawMessage
+		if err := json.Unmarshal(value, &entries); err != nil {
+			// not an array, reported by go-did
+			continue
+		}
+		for _, entry := range entries {
+			if bytes.Equal(bytes.TrimSpace(entry), []byte("null")) {
+				return nil, errors.New("invalid DID document: verificationMethod contains null")
+			}
+		}
+	}
+	document, err := did.ParseDocument(string(data))
+	if err != nil {
+		return nil, err
+	}
+	relationships := map[string]did.VerificationRelationships{
+		"authentication":       document.Authentication,
+		"assertionMethod":      document.AssertionMethod,
+		"keyAgreement":         document.KeyAgreement,
+		"capabilityInvocation": document.CapabilityInvocation,
+		"capabilityDelegation": document.CapabilityDelegation,
+	}
+	for name, relationship := range relationships {
+		for _, entry := range relationship {
+			if entry.VerificationMethod == nil {
+				return nil, fmt.Errorf("invalid DID document: %s contains an empty verification method reference", name)
+			}
+		}
+	}
+	return document, nil
+}
 
 // DIDResolver is the interface for DID resolvers: the process of getting the backing document of a DID.
 type DIDResolver interface {
